@@ -18,11 +18,29 @@ def collect(ctx, props, plans, design=(), report_deaths=False, me=1):
         nd = len(run.deaths)
         run.replay(behs)
         recs = run.records[base:]
+        # a predicate failure must reproduce when the same behaviour is replayed again (timing must never decide a verdict)
+        cand = {}
         for r in recs:
             if r.get("kind") == "violation" and r["prop"] in props:
-                ctx.violation(r["pred"], r["site"], r["class"], r["what"],
-                              replay_obj={"me": me, "steps": smlib.strip(behs[r["beh"]][: r["step"] + 1])})
-            elif r.get("kind") == "mismatch":
+                cand.setdefault((r["pred"], r["site"], r["class"]), r)
+        if cand:
+            keys = list(cand)
+            sub = [behs[cand[k]["beh"]] for k in keys]
+            base2 = len(run.records)
+            run.replay(sub)
+            again = {(r2["beh"], r2["pred"], r2["site"], r2["class"]) for r2 in run.records[base2:] if r2.get("kind") == "violation"}
+            dropped = 0
+            for n, k in enumerate(keys):
+                r = cand[k]
+                if (n, k[0], k[1], k[2]) in again:
+                    ctx.violation(r["pred"], r["site"], r["class"], r["what"],
+                                  replay_obj={"me": me, "steps": smlib.strip(behs[r["beh"]][: r["step"] + 1])})
+                else:
+                    dropped += 1
+            if dropped:
+                ctx.log("%d predicate failures did not reproduce on a second replay and are dropped" % dropped)
+        for r in recs:
+            if r.get("kind") == "mismatch":
                 mismatches.append({"source": label, "op": r["op"], "args": r.get("args"), "diff": r.get("diff"),
                                    "steps": smlib.strip(behs[r["beh"]][: r["step"] + 1]), "_full": behs[r["beh"]], "_step": r["step"]})
         for d in run.deaths[nd:]:
